@@ -229,6 +229,83 @@ func genC02(w *bufio.Writer, tier string, rng *rand.Rand) {
 		}
 		fmt.Fprintf(w, "}}\n")
 	}
+	// few large tie groups at sizes well beyond 25+25 (cheap for the code and for the model: the cost grows
+	// with the number of groups, not with their sizes): the counts leave the range of exact float64 integers
+	// and of int64
+	for k := 0; k < pick(tier, 40, 800); k++ {
+		n1, n2 := 20+rng.Intn(50), 20+rng.Intn(50)
+		if rng.Intn(3) == 0 {
+			n2 = n1
+		}
+		N := n1 + n2
+		K := 2 + rng.Intn(3)
+		t := make([]int, K)
+		for i := range t {
+			t[i] = 1
+		}
+		for r := N - K; r > 0; r-- {
+			if rng.Intn(3) == 0 {
+				t[rng.Intn(K)]++
+			} else {
+				t[rng.Intn(2)]++ // the first two ranks large
+			}
+		}
+		if rng.Intn(4) == 0 {
+			rng.Shuffle(K, func(i, j int) { t[i], t[j] = t[j], t[i] })
+		}
+		emitBig(w, rng, n1, n2, t)
+	}
+	// sizes aimed at the numeric constants of the code (a size limit, a table length, a shift width):
+	// pooled size N from the dictionary, a small first sample, two or three ranks
+	for _, N := range dictSizes(rng, 3, 3000000, pick(tier, 8, 80)) {
+		small := append([]int{1, 2, 3}, dictSizes(rng, 1, 70, 3)...)
+		for _, n1 := range small {
+			if n1 >= N || (N > 200 && n1 > 3 && !dictHasNew()) {
+				continue
+			}
+			// the code holds counts and products of two counts in float64: C(N,n1)^2 beyond its range (NaN
+			// results from n1 = 50 on in a pool of 2^20; far outside the property's 50+50 / 25+25) is not asked
+			if lg := lgammaF(float64(N+1)) - lgammaF(float64(n1+1)) - lgammaF(float64(N-n1+1)); lg > 340 {
+				continue
+			}
+			a := 1 + rng.Intn(N-1)
+			if rng.Intn(2) == 0 {
+				a = N/2 - rng.Intn(3)
+				if a < 1 {
+					a = 1
+				}
+			}
+			t := []int{a, N - a}
+			if N-a > 3 && rng.Intn(2) == 0 {
+				t = []int{a, 3, N - a - 3}
+			}
+			emitBig(w, rng, n1, N-n1, t)
+			if N <= 140 {
+				emitBig(w, rng, N-n1, n1, t)
+				if n1 <= 3 || dictHasNew() {
+					emitBig(w, rng, n1, N-n1, nil)
+				}
+			}
+		}
+	}
+	// as many distinct ranks as a constant of the code, lightly tied
+	for _, K := range dictSizes(rng, 3, 50, pick(tier, 4, 30)) {
+		for rep := 0; rep < 2; rep++ {
+			t := make([]int, K)
+			for i := range t {
+				t[i] = 1
+			}
+			for q := 0; q < 1+rng.Intn(3); q++ {
+				t[rng.Intn(K)]++
+			}
+			N := sumI(t)
+			n1 := 1 + rng.Intn(N-1)
+			if rep == 0 {
+				n1 = N / 2
+			}
+			emitBig(w, rng, n1, N-n1, t)
+		}
+	}
 	// random larger: untied to 50+50, tied to 25+25; the first cases sit on the corners of those ranges
 	corners := [][3]int{{25, 25, 1}, {25, 25, 1}, {24, 25, 1}, {25, 24, 1}, {1, 25, 1}, {25, 1, 1}, {1, 49, 1}, {49, 1, 1}, {2, 48, 1}, {10, 40, 1}, {20, 30, 1}, {30, 20, 1},
 		{50, 50, 0}, {49, 50, 0}, {50, 1, 0}, {1, 50, 0}, {26, 25, 0}, {25, 26, 0}, {13, 8, 1}, {16, 16, 1}, {32, 32, 0}}
@@ -291,6 +368,26 @@ func genC02(w *bufio.Writer, tier string, rng *rand.Rand) {
 		}
 	}
 }
+
+// emitBig asks a distribution at both tails, the centre and a few random points (CDF and PMF).
+func emitBig(w *bufio.Writer, rng *rand.Rand, n1, n2 int, t []int) {
+	ts := fmtInts(t)
+	top := float64(n1) * float64(n2)
+	half := func(x float64) float64 { return math.Floor(x*2) / 2 }
+	us := []float64{0, 0.5, 1, float64(rng.Intn(8)), top, top - 0.5, top - float64(rng.Intn(8)), half(top / 2), half(top/2) + 0.5,
+		half(rng.Float64() * top), half(rng.Float64() * top), half(top/2 - math.Sqrt(top*float64(n1+n2+1)/12)*(1+4*rng.Float64()))}
+	for _, u := range us {
+		if u < 0 {
+			u = 0
+		}
+		fmt.Fprintf(w, "ud %d %d %s cdf %s\n", n1, n2, ts, fmtF(u))
+		if rng.Intn(3) == 0 {
+			fmt.Fprintf(w, "ud %d %d %s pmf %s\n", n1, n2, ts, fmtF(u))
+		}
+	}
+}
+
+func lgammaF(x float64) float64 { v, _ := math.Lgamma(x); return v }
 
 func minI(a, b int) int {
 	if a < b {
@@ -484,6 +581,44 @@ func genC01(w *bufio.Writer, tier string, rng *rand.Rand) {
 		}
 	}
 	denseMWU(w, rng, pick(tier, 25, 400), 50, 25)
+	// numbers of distinct pooled values and sample sizes aimed at the numeric constants of the code,
+	// lightly tied, from separated (deep tail) to shuffled
+	for _, n := range dictSizes(rng, 2, 49, pick(tier, 10, 100)) {
+		for rep := 0; rep < 4; rep++ {
+			N := n + 1 + rng.Intn(3)
+			if N > 50 {
+				N = 50
+			}
+			n1 := 1 + rng.Intn(minI(N-1, 25))
+			if rep%2 == 0 {
+				n1 = N / 2
+			}
+			if N-n1 > 25 {
+				n1 = N - 25
+			}
+			vals := make([]float64, N)
+			for i := range vals {
+				vals[i] = float64(i)
+				if i >= n {
+					vals[i] = float64(rng.Intn(n))
+				}
+			}
+			if rep < 2 {
+				sortFloats(vals)
+				// nearly separated: a few exchanges across the boundary
+				for q := rng.Intn(3); q > 0; q-- {
+					i, j := rng.Intn(n1), n1+rng.Intn(N-n1)
+					vals[i], vals[j] = vals[j], vals[i]
+				}
+			} else {
+				rng.Shuffle(N, func(i, j int) { vals[i], vals[j] = vals[j], vals[i] })
+			}
+			for alt := -1; alt <= 1; alt++ {
+				emit(vals[:n1], vals[n1:], alt)
+			}
+			emit(vals[n1:], vals[:n1], rng.Intn(3)-1)
+		}
+	}
 	// every pair of sizes up to the tied exact limit once (thorough: three times), lightly tied: the
 	// binomial coefficients of every pooled size 2..50 and every split are exercised
 	for rep := 0; rep < pick(tier, 1, 3); rep++ {
@@ -648,6 +783,107 @@ func genC03(w *bufio.Writer, tier string, rng *rand.Rand) {
 	}
 	for _, lim := range [][2]int{{50, 25}, {50, 25}, {10, 40}, {1000000, 1000000}} {
 		denseMWU(w, rng, pick(tier, 10, 150), lim[0], lim[1])
+	}
+	// raised limits, sizes past the defaults: tie-free samples from fully separated (the far tails of the
+	// exact distribution, |z| up to 12) to overlapping, and heavily tied ones in two to four ranks
+	for k := 0; k < pick(tier, 24, 500); k++ {
+		el := []int{1000000, 100, 200, 64}[rng.Intn(4)]
+		n1, n2 := 51+rng.Intn(30), 51+rng.Intn(30)
+		if rng.Intn(3) == 0 {
+			n2 = n1
+		}
+		if n1 > el || n2 > el {
+			n1, n2 = minI(n1, el), minI(n2, el)
+		}
+		N := n1 + n2
+		perm := rng.Perm(N)
+		vals := make([]float64, N)
+		for i, p := range perm {
+			vals[i] = float64(p)
+		}
+		sortFloats(vals)
+		// x1 takes the lowest ranks except for `mix` exchanges with x2
+		x1 := append([]float64(nil), vals[:n1]...)
+		x2 := append([]float64(nil), vals[n1:]...)
+		mix := []int{0, 0, 1, 2, 5, 20, 200}[rng.Intn(7)]
+		for q := 0; q < mix; q++ {
+			i, j := rng.Intn(n1), rng.Intn(n2)
+			if mix <= 5 { // exchanges next to the boundary keep U small
+				i, j = n1-1-rng.Intn(minI(n1, 3)), rng.Intn(minI(n2, 3))
+			}
+			x1[i], x2[j] = x2[j], x1[i]
+		}
+		rng.Shuffle(n1, func(i, j int) { x1[i], x1[j] = x1[j], x1[i] })
+		for _, ai := range rng.Perm(3)[:2] {
+			emit(x1, x2, ai-1, el, 25)
+		}
+		if rng.Intn(2) == 0 {
+			emit(x2, x1, rng.Intn(3)-1, el, 25)
+		}
+	}
+	for k := 0; k < pick(tier, 24, 500); k++ {
+		n1, n2 := 26+rng.Intn(35), 26+rng.Intn(35)
+		if rng.Intn(3) == 0 {
+			n2 = n1
+		}
+		K := 2 + rng.Intn(3)
+		x1, x2 := make([]float64, n1), make([]float64, n2)
+		sh := rng.Intn(3)
+		for i := range x1 {
+			x1[i] = float64(rng.Intn(K))
+		}
+		for i := range x2 {
+			x2[i] = float64(minI(K-1, rng.Intn(K)+rng.Intn(sh+1)))
+		}
+		if rng.Intn(3) == 0 { // two ranks of nearly equal size
+			for i := range x1 {
+				x1[i] = float64(i % 2)
+			}
+			for i := range x2 {
+				x2[i] = float64((i + rng.Intn(2)) % 2)
+			}
+		}
+		emit(x1, x2, rng.Intn(3)-1, 1000000, []int{1000000, 100, 61}[rng.Intn(3)])
+		emit(x2, x1, rng.Intn(3)-1, 1000000, 1000000)
+	}
+	// sizes and numbers of distinct values aimed at the numeric constants of the code
+	for _, n := range dictSizes(rng, 2, 120, pick(tier, 10, 100)) {
+		for rep := 0; rep < 3; rep++ {
+			n1, n2 := n, 1+rng.Intn(minI(n+3, 60))
+			if rep == 1 {
+				n1, n2 = n2, n1
+			} else if rep == 2 { // n distinct pooled values, a few of them repeated
+				N := n + 1 + rng.Intn(4)
+				if N > 50 {
+					N = n + 1
+				}
+				n1 = N/2 + rng.Intn(3)
+				n2 = N - n1
+			}
+			if n1 < 1 || n2 < 1 {
+				continue
+			}
+			N := n1 + n2
+			vals := make([]float64, N)
+			for i, p := range rng.Perm(N) {
+				vals[i] = float64(p)
+			}
+			if rep == 2 {
+				for i := n; i < N; i++ { // the extra values repeat earlier ones
+					vals[i] = vals[rng.Intn(n)]
+				}
+				rng.Shuffle(N, func(i, j int) { vals[i], vals[j] = vals[j], vals[i] })
+			} else if rng.Intn(2) == 0 {
+				vals[rng.Intn(N)] = vals[rng.Intn(N)]
+			}
+			lim := [][2]int{{50, 25}, {1000000, 1000000}, {n, n}, {n - 1, n - 1}}[rng.Intn(4)]
+			if rng.Intn(2) == 0 { // sorted: one sample below the other, deep tail
+				sortFloats(vals)
+			}
+			for _, ai := range rng.Perm(3)[:2] {
+				emit(vals[:n1], vals[n1:], ai-1, lim[0], lim[1])
+			}
+		}
 	}
 	// every tie vector, allocation and alternative on small pools (two- and three-valued data,
 	// samples tied entirely within themselves, ...), under the default limits and with the exact
